@@ -225,6 +225,14 @@ func (w *World) enter(fs *FuncSpec, got []reflect.Value) (outs []reflect.Value, 
 	}
 	outs = make([]reflect.Value, len(fs.Out))
 	for i, l := range fs.Out {
+		if fs.Identity {
+			outs[i] = got[i]
+			if got[i].Kind() == reflect.Interface && !got[i].IsNil() {
+				outs[i] = got[i].Elem()
+			}
+			ev.Outs = append(ev.Outs, Observe(got[i]).Tok)
+			continue
+		}
 		w.nextTok++
 		tok := w.nextTok
 		w.Ledger[tok] = Origin{Func: fs.ID, Exec: exec, L: l, Dyn: l.Dyn}
